@@ -676,6 +676,14 @@ JIT_UNOPS = ["car", "cdr", "null?", "not", "length", "abs", "add1", "sub1", "zer
              "vector-length", "string-length", "exact->inexact", "number?", "integer?", "list?", "pair?", "first", "rest", "cadr",
              "unbox", "-", "+", "*", "/", "square", "floor", "round", "exact"]
 JIT_TERNOPS = ["+", "-", "*", "<", "=", "<=", "list", "if", "vector", "max"]
+# library procedures written in Scheme (prelude / modules): their bodies use the specialised op codes
+JIT_LIB_UN = ["sub1", "add1", "zero?", "even?", "odd?", "positive?", "negative?", "abs", "cadr", "caddr", "first", "second", "last",
+              "flatten", "sum", "length", "reverse", "(lambda (l) (map sub1 l))", "(lambda (l) (map add1 l))",
+              "(lambda (l) (filter even? l))", "(lambda (l) (foldl + 0 l))", "(lambda (l) (reduce + 0 l))", "(lambda (l) (map car l))"]
+JIT_LIB_BIN = ["max", "min", "assoc", "member", "list-tail", "drop", "take", "append", "(lambda (a b) (map + a b))",
+               "(lambda (a b) (assq a b))", "(lambda (a b) (foldl - a b))"]
+JIT_LISTS = ["(list 1 2 3)", "(list 1 \"a\" 3)", "(list)", "(list 1.5 2)", "(list (list 1 2) (list 3 4))", "(list 'a 1)", "5", "\"abc\"",
+             "(list (cons 1 2) (cons 3 4))", "(list 4611686018427387904 4611686018427387904)", "(vector 1 2)", "(list 1 (list 2 \"x\"))"]
 
 
 def gen_jitops_program(rng):
@@ -683,8 +691,19 @@ def gen_jitops_program(rng):
     obs = []
     nfn = rng.randint(2, 4)
     for i in range(nfn):
-        kind = rng.choice(["bin", "bin", "bin", "un", "tern", "imm", "loop", "cmpif"])
-        if kind == "bin":
+        kind = rng.choice(["bin", "bin", "bin", "un", "tern", "imm", "loop", "cmpif", "lib1", "lib1", "lib2"])
+        if kind == "lib1":
+            op = rng.choice(JIT_LIB_UN)
+            forms.append("(define (t%d a) (with-handler (lambda (e) 'err) (%s a)))" % (i, op))
+            pool = JIT_LISTS if ("l)" in op or op in ("cadr", "caddr", "first", "second", "last", "flatten", "sum", "length", "reverse")) else JIT_VALUES
+            for _ in range(rng.randint(4, 8)):
+                obs.append("(t%d %s)" % (i, rng.choice(pool)))
+        elif kind == "lib2":
+            op = rng.choice(JIT_LIB_BIN)
+            forms.append("(define (t%d a b) (with-handler (lambda (e) 'err) (%s a b)))" % (i, op))
+            for _ in range(rng.randint(4, 8)):
+                obs.append("(t%d %s %s)" % (i, rng.choice(JIT_VALUES + JIT_LISTS), rng.choice(JIT_LISTS + JIT_VALUES)))
+        elif kind == "bin":
             op = rng.choice(JIT_BINOPS)
             forms.append("(define (t%d a b) (with-handler (lambda (e) 'err) (%s a b)))" % (i, op))
             for _ in range(rng.randint(4, 9)):
@@ -727,4 +746,5 @@ def gen_jitops_program(rng):
                                                                         rng.choice(["1", "3", "-1", "0", "2.0", "1/2", "'()", "7"])))
     rng.shuffle(obs)
     k = max(1, len(obs) // 2)
-    return {"pieces": ["\n".join(forms) + "\n(list %s)" % " ".join(obs[:k]), "(list %s)" % " ".join(obs[k:])]}
+    # every observation is a top-level form of its own: the values are compared position by position
+    return {"pieces": ["\n".join(forms) + "\n" + "\n".join(obs[:k]), "\n".join(obs[k:])]}
